@@ -19,7 +19,7 @@ def slug(s, n=70):
 def run_s(out, slices, props, max_paths=None, time_budget=None, procs=16):
     tier = out.tier
     max_paths = max_paths or (30000 if tier == 'quick' else 400000)
-    time_budget = time_budget or (90 if tier == 'quick' else 1500)
+    time_budget = time_budget or (120 if tier == 'quick' else 700)
     t0 = time.time()
     mir_text, dt = ssetup.dump_mir(core.REPO)
     os.makedirs(core.WORK, exist_ok=True)
